@@ -5,6 +5,7 @@ what is decided (not optimality over numeric load tables)."""
 import ast
 from ..model import own_nodes, AnalysisError
 from ..paths import factmap, call_text, returns
+from ..defuse import defuse, closed_text, comp_view
 from ..absval import EnumEval
 from .c04 import who_calls
 from . import shared
@@ -21,26 +22,25 @@ SPEC = {
 
 
 def sorter_key(P, name):
-    """(field order) of a shared sorter: sorted([(identifier, node_load, instance_load) ... if validity], key=lambda)."""
+    """(field order) of a shared sorter: sorted([(identifier, node_load, instance_load) ... if validity], key=lambda).
+    Works on the closed form of the returned value (sa.defuse): no dependency on the names of locals and binders."""
     u = P.unit('AbstractStartingStrategy.' + name)
-    srt = [c for c in own_nodes(u.node) if isinstance(c, ast.Call) and call_text(c) == 'sorted']
-    if len(srt) != 1 or not isinstance(srt[0].args[0], ast.ListComp):
+    rets = [v for v, f, n in returns(u) if v is not None]
+    if len(rets) != 1:
+        raise AnalysisError('%s: %d return expressions' % (u.qual, len(rets)))
+    v = defuse(u).closed(rets[0])
+    if not (isinstance(v, ast.Call) and call_text(v) == 'sorted' and v.args and isinstance(v.args[0], ast.ListComp)):
         raise AnalysisError('%s: unrecognised sorter shape' % u.qual)
-    comp = srt[0].args[0]
+    comp = v.args[0]
     if not isinstance(comp.elt, ast.Tuple):
         raise AnalysisError('%s: sorted element is not a tuple' % u.qual)
-    fields = [ast.unparse(x) for x in comp.elt.elts]
-    # names bound by the comprehension target: identifier, (validity, node_load, instance_load)
-    tgt = comp.generators[0].target
-    if not (isinstance(tgt, ast.Tuple) and len(tgt.elts) == 2 and isinstance(tgt.elts[1], ast.Tuple)
-            and len(tgt.elts[1].elts) == 3):
-        raise AnalysisError('%s: unrecognised comprehension target' % u.qual)
-    names = [ast.unparse(x) for x in tgt.elts[1].elts]       # validity, node_load, instance_load (positional in map)
-    role = {names[1]: 'node', names[2]: 'instance', ast.unparse(tgt.elts[0]): 'identifier'}
-    if ast.unparse(comp.generators[0].iter) != 'loading_validity_map.items()':
+    if len(comp.generators) != 1 or ast.unparse(comp.generators[0].iter) != 'loading_validity_map.items()':
         raise AnalysisError('%s: does not iterate loading_validity_map.items()' % u.qual)
-    key = next((k.value for k in srt[0].keywords if k.arg == 'key'), None)
-    rev = next((k.value for k in srt[0].keywords if k.arg == 'reverse'), None)
+    E = 'each(loading_validity_map.items())'
+    role = {E + '[0]': 'identifier', E + '[1][1]': 'node', E + '[1][2]': 'instance'}   # positions in LoadingValidity
+    fields = [role.get(ast.unparse(x), '?') for x in comp.elt.elts]
+    key = next((k.value for k in v.keywords if k.arg == 'key'), None)
+    rev = next((k.value for k in v.keywords if k.arg == 'reverse'), None)
     if not isinstance(key, ast.Lambda) or rev is not None:
         raise AnalysisError('%s: sorted() key is not a lambda (or reverse= used)' % u.qual)
     arg = key.args.args[0].arg
@@ -48,52 +48,47 @@ def sorter_key(P, name):
     order = []
     for b in body:
         if not (isinstance(b, ast.Subscript) and isinstance(b.value, ast.Name) and b.value.id == arg and
-                isinstance(b.slice, ast.Constant)):
+                isinstance(b.slice, ast.Constant) and isinstance(b.slice.value, int) and b.slice.value < len(fields)):
             raise AnalysisError('%s: key element %s not understood' % (u.qual, ast.unparse(b)))
-        order.append(role.get(fields[b.slice.value], '?'))
-    first_field = role.get(fields[0])
-    return tuple(order), first_field, u
+        order.append(fields[b.slice.value])
+    return tuple(order), fields[0], u
+
+
+LV = 'self.get_loading_and_validity(identifiers, expected_load, load_details)'
 
 
 def selection(P, cname):
-    """(order key, end) summarised from <cname>.get_supvisors_instance; AnalysisError on unknown shapes."""
+    """selection spec of one strategy class, from the closed form of the value it returns."""
     u = P.unit(cname + '.get_supvisors_instance')
     rets = [v for v, f, n in returns(u) if v is not None and not (isinstance(v, ast.Constant) and v.value is None)]
-    defs = {a.targets[0].id: a.value for a in own_nodes(u.node) if isinstance(a, ast.Assign)
-            and isinstance(a.targets[0], ast.Name)}
     if len(rets) != 1:
         raise AnalysisError('%s: %d non-None return expressions' % (u.qual, len(rets)))
-    v = rets[0]
+    v = defuse(u).closed(rets[0])
     # CONFIG shape: next((identifier for identifier, (validity, _, _) in loading_validity_map.items() if validity), None)
     if isinstance(v, ast.Call) and call_text(v) == 'next' and isinstance(v.args[0], ast.GeneratorExp):
-        g = v.args[0]
-        ok = ast.unparse(g.generators[0].iter) == 'loading_validity_map.items()' and \
-            [ast.unparse(i) for i in g.generators[0].ifs] == ['validity'] and \
-            ast.unparse(g.elt) == ast.unparse(g.generators[0].target.elts[0])
+        cv = comp_view(u, v.args[0])
+        E = 'each(%s.items())' % LV
+        ok = cv['iters'] == [LV + '.items()'] and cv['conds'] == {(E + '[1][0]', True)} and cv['elt'] == E + '[0]' and \
+            len(v.args) == 2 and isinstance(v.args[1], ast.Constant) and v.args[1].value is None
         if not ok:
             raise AnalysisError('%s: unrecognised next(...) shape' % u.qual)
         return ('candidate-order', 'first'), u
-    # sorted shapes: sorted_identifiers[0|-1][0] if sorted_identifiers else None
-    if isinstance(v, ast.IfExp):
-        body = v.body
+    if isinstance(v, ast.IfExp) and isinstance(v.orelse, ast.Constant) and v.orelse.value is None:
+        body, test = v.body, ast.unparse(v.test)
+        # sorted shapes: sorted_identifiers[0|-1][0] if sorted_identifiers else None
         if isinstance(body, ast.Subscript) and isinstance(body.value, ast.Subscript) and \
-                isinstance(body.value.value, ast.Name) and ast.unparse(v.test) == body.value.value.id:
+                ast.unparse(body.value.value) == test and isinstance(v.test, ast.Call) and \
+                call_text(v.test).startswith('self.sort_valid_by_') and [ast.unparse(a) for a in v.test.args] == [LV]:
             idx = ast.unparse(body.value.slice)
             fld = ast.unparse(body.slice)
-            src = defs.get(body.value.value.id)
-            if isinstance(src, ast.Call) and call_text(src).startswith('self.sort_valid_by_') and idx in ('0', '-1'):
-                order, first_field, su = sorter_key(P, call_text(src)[5:])
+            if idx in ('0', '-1'):
+                order, first_field, su = sorter_key(P, call_text(v.test)[5:])
                 if fld != '0' or first_field != 'identifier':
                     raise AnalysisError('%s: returned field %s is not the identifier' % (u.qual, fld))
                 return (order, 'first' if idx == '0' else 'last'), u
         # LOCAL shape: local_identifier if validity else None
-        if ast.unparse(v.body) == 'local_identifier' and ast.unparse(v.test) == 'validity':
-            vd = [a for a in own_nodes(u.node) if isinstance(a, ast.Assign) and isinstance(a.targets[0], ast.Tuple)
-                  and ast.unparse(a.targets[0].elts[0]) == 'validity']
-            ok = len(vd) == 1 and ast.unparse(vd[0].value) == 'loading_validity_map[local_identifier]' and \
-                ast.unparse(defs.get('local_identifier')) == 'self.supvisors.mapper.local_identifier'
-            if not ok:
-                raise AnalysisError('%s: unrecognised LOCAL shape' % u.qual)
+        loc = 'self.supvisors.mapper.local_identifier'
+        if ast.unparse(body) == loc and test == '%s[%s][0]' % (LV, loc):
             return ('local', 'only'), u
     if isinstance(v, ast.Call) and call_text(v) in ('min', 'max'):
         raise AnalysisError('%s: min/max selection shape not summarised' % u.qual)
@@ -140,18 +135,16 @@ def run(P, R):
     R.check(r2, ok, 'LOCAL places nothing when the local instance is not a candidate', 'selection|LocalStrategy|candidate',
             u.loc(), 'LocalStrategy does not return None when the local identifier is not among the candidates')
     u = P.unit('AbstractStartingStrategy.is_loading_valid')
-    rs = [v for v, f, n in returns(u) if v is not None]
-    ok = len(rs) == 1 and isinstance(rs[0], ast.Tuple) and [ast.unparse(x) for x in rs[0].elts[1:]] == \
-        ['node_loading', 'instance_loading']
+    val, node, inst = shared.loading_terms(P)
+    mid = 'self.supvisors.context.instances[identifier].supvisors_id.local_view.machine_id'
+    ok = node == sorted(['load_details[1].get(%s, 0)' % mid, 'load_details[2].get(%s, 0)' % mid]) and \
+        any('get_load()' in t for t in inst)
     R.check(r2, ok, 'the loading tuple is (validity, node load, instance load)', 'selection|tuple-order', u.loc(),
-            'is_loading_valid returns %s: the sorters read node load at index 1 and instance load at index 2' %
-            [ast.unparse(v) for v in rs])
-    defs = {a.targets[0].id: ast.unparse(a.value) for a in own_nodes(u.node) if isinstance(a, ast.Assign)
-            and isinstance(a.targets[0], ast.Name)}
-    ok = defs.get('instance_loading') in ('status.get_load() + load_request_map.get(identifier, 0)',
-                                          'load_request_map.get(identifier, 0) + status.get_load()')
+            'is_loading_valid returns (.., %s, %s): the sorters read node load at index 1 and instance load at index 2' %
+            (' + '.join(node), ' + '.join(inst)))
+    ok = inst == sorted(['self.supvisors.context.instances[identifier].get_load()', 'load_details[0].get(identifier, 0)'])
     R.check(r2, ok, 'the instance load includes the starts already requested there', 'selection|instance-load', u.loc(),
-            'is_loading_valid computes instance_loading as %s' % defs.get('instance_loading'))
+            'is_loading_valid computes instance_loading as %s' % ' + '.join(inst))
 
     shared.pending_per_node(P, R, r2)
 
@@ -241,7 +234,7 @@ def run(P, R):
             'Commander.next does not call application_job.before() before application_job.next()')
     pj = P.unit('ApplicationStartJobs.process_job')
     fm = factmap(pj)
-    pi = [c for c in own_nodes(pj.node) if isinstance(c, ast.Call) and call_text(c) == 'process.possible_identifiers']
+    pi = [c for c in own_nodes(pj.node) if isinstance(c, ast.Call) and call_text(c) == 'command.process.possible_identifiers']
     ok = len(pi) == 1 and fm.has(pi[0], 'self.distribution == DistributionRules.ALL_INSTANCES', True)
     R.check(r4, ok, 'the program rule applies only to distributed applications', 'distribution|process-rule', pj.loc(),
             'process_job consults process.possible_identifiers() outside `distribution == ALL_INSTANCES`')
